@@ -300,8 +300,7 @@ func (w *writer) listLen() int {
 		return 0
 	}
 
-	start := list.start
-	return w.elements.len(start)
+	return w.elements.len(list.tableStart)
 }
 
 func (w *writer) endElement() ([]byte, error) {
